@@ -12,6 +12,12 @@ package checks
 //               create_ mutations with inline literals on two independent nodes; a create_ mutation
 //               with variables on a third; col.Create + read back on a fourth) — all must agree,
 //               and the id must differ on a node whose schema root differs.
+//   route/...   (c13_routes.go) the document object is put together in several steps (constructor with part
+//               of the fields + Set / SetWithJSON of the rest, full document + Set of one field, NewDocWithID or
+//               a `_docID` map key with the id of other content or a random id + Set of all fields), so that
+//               it reaches collection.Create / CreateMany / Save carrying an id that is not the id of its
+//               content: the submit is either rejected, or the document is stored under exactly the id the
+//               one-go routes give for the same final content on an independent node.
 //   schema/...  one generated set of types with a random primary-relation graph, added to fresh
 //               nodes under every permutation of the type order, partitions into several
 //               AddSchema calls (along connected components), and R repetitions of the identical
@@ -119,7 +125,11 @@ type c13Doc map[string]any
 var c13Strings = []string{"", "a", "B b", "héllo ✓", "q\" b\\ nl\n tab\t/", "😀 emoji", strings.Repeat("xy", 150), "<&>"}
 var c13Ints = []int64{0, 1, -1, 10, 42, -7, 1 << 31, 1<<53 + 1, -(1 << 53) - 1, math.MaxInt64, math.MinInt64}
 var c13Floats = []float64{0, 10, -2.5, 0.1, 1e308, 5e-324, 123456.789, 1e21, 3, -1e-7, math.Copysign(0, -1)}
-var c13Floats32 = []float64{0, 1.5, -2.25, 3, float64(float32(0.1)), 1e10}
+var c13Floats32 = []float64{0, 1.5, -2.25, 3, float64(float32(0.1)), 1e10, 0.1, 123456.789, -2.5e-5} // the last three need rounding to single precision
+
+// float64 values that lie exactly halfway between two adjacent float32 values (1+2^-24, 3+2^-23, ...)
+var c13Float32Halfway = []float64{1.0000000596046448, 3.0000001192092896, -1.0000000596046448, -3.0000001192092896}
+
 var c13Times = []string{"2020-01-02T03:04:05Z", "2020-01-02T03:04:05.123456789Z", "0001-01-01T00:00:00Z", "1999-12-31T23:59:59.5+02:00", "9999-12-31T23:59:59Z"}
 var c13Blobs = []string{"", "00ff", "deadbeef", "0123456789abcdef0123456789abcdef"}
 var c13JSONs = []string{`{"k":[1,"x",null]}`, `"str"`, `12.5`, `true`, `[]`, `{}`, `{"a":{"b":{"c":[1,2,{"d":null}]}}}`, `[1,[2,[3]]]`,
@@ -720,6 +730,7 @@ func c13DocCases(seed uint64, n int) []core.Case {
 		core.MkCase("doc/anchor-all-kinds", 11, c13DocParams{Anchor: "all-kinds", Docs: 6}),
 		core.MkCase("doc/anchor-nulls", 12, c13DocParams{Anchor: "nulls", Docs: 4}),
 		core.MkCase("doc/anchor-edge-values", 13, c13DocParams{Anchor: "edge", Docs: 6}),
+		core.MkCase("doc/anchor-float32-halfway", 14, c13DocParams{Anchor: "float32-halfway", Docs: 4}),
 	}
 	rng := rand.New(rand.NewPCG(seed, 1313))
 	for i := 0; i < n; i++ {
@@ -777,7 +788,17 @@ func c13RunDoc(ctx context.Context, c core.Case, r *core.Rec) {
 		if p.Anchor == "edge" {
 			c13EdgeDoc(d, fields, di)
 		}
-		if di%2 == 1 {
+		if p.Anchor == "float32-halfway" {
+			// Float32 values given with more digits than single precision holds, chosen halfway between
+			// two float32 values (exactly representable as float64): text -> float32 directly and
+			// text -> float64 -> float32 round them differently
+			for _, f := range fields {
+				if f.Kind == c13Float32 {
+					d[f.Name] = c13Float32Halfway[di%len(c13Float32Halfway)]
+				}
+			}
+		}
+		if di%2 == 1 || p.Anchor == "float32-halfway" {
 			c13ClampInts(d, fields) // the GraphQL input type Int is 32 bit: keep half of the documents expressible there
 		}
 		ids := map[string]string{}
@@ -919,6 +940,12 @@ func c13Attribute(ctx context.Context, fields []c13Field, d c13Doc, rt c13Route,
 	}
 	sort.Strings(names)
 	var pairs [][2]string
+	if plain := rt; true {
+		plain.St = c13RefStyle
+		if disagree(plain, d) {
+			names = []string{"route-itself"} // the route disagrees whatever its style: do not also blame every aspect of the style
+		}
+	}
 	for _, name := range names {
 		one := rt
 		one.St = styles[name]
@@ -938,6 +965,9 @@ func c13Attribute(ctx context.Context, fields []c13Field, d c13Doc, rt c13Route,
 				k := string(f.Kind)
 				if ek, _, isArr := f.Kind.elem(); isArr {
 					k = string(ek) // arrays are attributed to their element kind
+				}
+				if v, ok := d[f.Name].(float64); ok && f.Kind == c13Float32 && float64(float32(v)) != v {
+					k = "Float32-value-needing-rounding-to-single-precision"
 				}
 				found[k] = true
 			}
@@ -1269,6 +1299,37 @@ func onlySelfLoops(s *c13Set) bool {
 	return true
 }
 
+// c13CycleSplit: two distinct types that lie on a common directed cycle of primary relations were
+// given identifiers of different schema sets.
+func c13CycleSplit(s *c13Set, ids c13IDs) bool {
+	n := len(s.Names)
+	reach := make([][]bool, n)
+	for i := range reach {
+		reach[i] = make([]bool, n)
+	}
+	for _, e := range s.Edges {
+		reach[e.From][e.To] = true
+	}
+	for k := 0; k < n; k++ {
+		for i := 0; i < n; i++ {
+			for j := 0; j < n; j++ {
+				if reach[i][k] && reach[k][j] {
+					reach[i][j] = true
+				}
+			}
+		}
+	}
+	set := func(i int) string { return strings.SplitN(ids[s.Names[i]][1], "-", 2)[0] }
+	for i := 0; i < n; i++ {
+		for j := i + 1; j < n; j++ {
+			if reach[i][j] && reach[j][i] && set(i) != set(j) {
+				return true
+			}
+		}
+	}
+	return false
+}
+
 // canon: canonical form of the labelled multigraph (edge kind, explicitness, position in the
 // source's relation order) under renaming of the types: minimum over all permutations.
 func (s *c13Set) canon() string {
@@ -1454,6 +1515,11 @@ func c13RunSchema(ctx context.Context, c core.Case, r *core.Rec) {
 		// getSchemaSets (DESIGN.md section 7 row 12) dissolved the group — deterministic, so not a violation
 		r.Count("schema_sets_cycle_not_grouped_by_getSchemaSets", 1)
 	}
+	if c13CycleSplit(s, base) {
+		// two types of one directed cycle carry different set ids (mapSchemaSetIDs overwrites the set id of a
+		// cycle member when a later sorting type outside the cycle points to it): deterministic, so not a violation
+		r.Count("schema_sets_cycle_members_in_different_sets", 1)
+	}
 	if sh.Nontrivial {
 		r.Count("schema_sets_nontrivial", 1)
 		r.Nontrivial("schema|" + sh.Canon)
@@ -1573,6 +1639,9 @@ func c13AnchorSets() []*c13Set {
 		{Note: "explicit primaries: cycle relation explicit, leaf explicit and later", Names: []string{"A", "B", "C"}, Scalars: sc(3), Edges: []c13Edge{{From: 0, To: 1, Kind: "one", Explicit: true, Fwd: "ab"}, one(1, 0, "ba"), {From: 0, To: 2, Kind: "one", Explicit: true, Fwd: "zc"}}},
 		{Note: "two independent components: a cycle with leaf, and a plain pair", Names: []string{"A", "B", "C", "X", "Y"}, Scalars: sc(5), Edges: []c13Edge{one(0, 1, "ab"), one(1, 0, "ba"), one(1, 2, "zc"), many(3, 4, "xy", "yx")}},
 		{Note: "4-cycle, each member with its own leaf-ward relation to the same leaf", Names: []string{"A", "B", "C", "D", "L"}, Scalars: sc(5), Edges: []c13Edge{one(0, 1, "n1"), one(1, 2, "n2"), one(2, 3, "n3"), one(3, 0, "n4"), one(0, 4, "z1"), one(2, 4, "z2")}},
+		{Note: "two 2-cycles, one-way link from the later sorting cycle into the earlier sorting one", Names: []string{"A", "B", "C", "D"}, Scalars: sc(4), Edges: []c13Edge{one(0, 1, "ab"), one(1, 0, "ba"), one(2, 3, "cd"), one(3, 2, "dc"), one(2, 0, "ca")}},
+		{Note: "type outside a 2-cycle pointing into it and sorting after it", Names: []string{"A", "B", "C"}, Scalars: sc(3), Edges: []c13Edge{one(0, 1, "ab"), one(1, 0, "ba"), one(2, 0, "ca")}},
+		{Note: "two 2-cycles X,Y and A,B with a link from X into A (the pointed-to cycle sorts first)", Names: []string{"X", "Y", "A", "B"}, Scalars: sc(4), Edges: []c13Edge{one(0, 1, "xy"), one(1, 0, "yx"), one(2, 3, "ab"), one(3, 2, "ba"), one(0, 2, "xa")}},
 		{Note: "three isolated types and one self reference (partitions)", Names: []string{"A", "B", "C", "D"}, Scalars: sc(4), Edges: []c13Edge{one(3, 3, "me")}},
 	}
 }
@@ -1603,22 +1672,30 @@ func init() {
 		Rule: "doc cases: generated schema (subset of 18 field kinds incl. arrays, JSON, relation, counter) x generated documents (edge ints/floats, unicode, nulls); the docID is obtained through 11 routes " +
 			"(NewDocFromMap with int/int64/float64/json.Number/time.Time/typed slices, nil vs omitted, rel vs rel_id; NewDocFromJSON canonical and shuffled/whitespace/number spelling/\\u escapes; NewDocsFromJSON; " +
 			"create_ mutation literal on two nodes; create_ with variables; collection.Create + stored id) on four independent nodes and must agree, and must differ under a different schema root; distinct by (set of kinds present, nulls present). " +
-			"schema cases: 13 anchor sets + generated type sets (2-5 types, random one-sided/1-1/1-N/self relations, two thirds aimed at 'cycle + later relation leaving the cycle') added to fresh nodes under every permutation of the types, " +
+			"route cases: generated schema x 3 final contents x 9 multi-step construction routes (two-step map+Set, two-step JSON+SetWithJSON, empty+Set, full document then one field changed with Set, NewDocWithID(id of other content / random id)+Set, " +
+			"NewDocFromMap with a foreign _docID key, two-step + GenerateAndSetDocID, multi-step controls whose carried id stays the content id), each submitted with Create / CreateMany (other content travelling in the same batch) / Save on a node of its own; " +
+			"the submit must be rejected or store the document under exactly the docID the same final content gets in one go on a reference node (doc.ID() afterwards = stored _docID, collection.Get and GetAllDocIDs agree with the query), " +
+			"the docID of the other content must stay free for that content, and every row of a route node must equal the row with that _docID on the reference node; distinct by (route, submit, accepted|rejected). " +
+			"schema cases: 16 anchor sets + generated type sets (2-5 types, random one-sided/1-1/1-N/self relations, two thirds aimed at 'cycle + later relation leaving the cycle') added to fresh nodes under every permutation of the types, " +
 			"partitions into several AddSchema calls along connected components and R identical repetitions; maps type -> (VersionID, CollectionID, Root) must be equal. " +
 			"non-trivial schema set = has a cycle and a cycle member whose non-first relation leaves its cycle; distinct by canonical form of the labelled relation graph.",
 		Cases: func(seed uint64, tier string) []core.Case {
-			return append(c13DocCases(seed, tierN(tier, 80, 1000)), c13SchemaCases(seed, tier)...)
+			cs := append(c13DocCases(seed, tierN(tier, 80, 1000)), c13RouteCases(seed, tierN(tier, 60, 700))...)
+			return append(cs, c13SchemaCases(seed, tier)...)
 		},
 		Run: func(ctx context.Context, c core.Case, r *core.Rec) {
-			if strings.HasPrefix(c.Kind, "doc/") {
+			switch {
+			case strings.HasPrefix(c.Kind, "doc/"):
 				c13RunDoc(ctx, c, r)
-			} else {
+			case strings.HasPrefix(c.Kind, "route/"):
+				c13RunRoute(ctx, c, r)
+			default:
 				c13RunSchema(ctx, c, r)
 			}
 		},
-		Floors: []string{"documents", "docs_with_null_fields", "route_map", "route_json", "route_jsonarray", "route_gql", "route_gqlvar", "route_create", "schema_root_differs_checks",
+		Floors: append(c13RtFloors(), "documents", "docs_with_null_fields", "route_map", "route_json", "route_jsonarray", "route_gql", "route_gqlvar", "route_create", "schema_root_differs_checks",
 			"schema_sets", "schema_sets_cyclic", "schema_sets_with_grouped_cycle", "schema_sets_self_reference", "schema_sets_one_sided_relation", "schema_sets_type_with_3_links",
-			"schema_sets_multi_component", "schema_sets_slip_shape", "variants_permutation", "variants_partition", "variants_repetition", "floor_nontrivial_schema_sets_ge_10", "floor_harness_model_agrees_with_parser"},
+			"schema_sets_multi_component", "schema_sets_slip_shape", "variants_permutation", "variants_partition", "variants_repetition", "floor_nontrivial_schema_sets_ge_10", "floor_harness_model_agrees_with_parser"),
 		CaseTimeout: 120 * time.Second,
 		PostProcess: func(sup *core.Supervisor, m *core.Rec) {
 			if m.Counters["schema_sets_nontrivial"] >= 10 {
@@ -1632,6 +1709,7 @@ func init() {
 			"'the run' is sampled by repetitions on fresh nodes inside one process and by 16 worker processes that each recompute the anchors; Go randomises map iteration per range statement, so repetitions inside one process sample the same nondeterminism as separate processes",
 			"a connected component of the relation graph is always added in one AddSchema call (a relation to a type of an earlier call is rejected by DefraDB: 'relation missing field')",
 			"a construction route that rejects a document which the reference route accepts is recorded as a note, not as a violation (C13 speaks about the identifiers that are produced)",
+			"a multi-step construction route may be rejected (today: ErrDocVerification whenever the carried id differs from the id of the content) or accepted under the content id; which of the two is not prescribed. A counter field given an explicit null at creation reads 0 while an omitted one reads null (same docID): the rows compared between nodes normalise that",
 		},
 	})
 }
